@@ -14,7 +14,7 @@ CHECKS = {
  "C05": ("exploration",
          "model-based property testing: type-directed expression generator vs. an independent arbitrary-precision reference evaluator, two printings (minimal/full parentheses), shrinking via proptest",
          "Random search over expression trees to depth 6 against a reference evaluator written from the language description; value, size and error/no-error are compared for every expression in both printings. Exploration of an infinite space: finds wrong operators, precedence, sizes and encodings with high probability, proves nothing about unexplored trees.",
-         "The precedence table is the pinned one (no other documentation exists); numeric value of strings whose first byte is >= 0x80 and ascii() of non-ASCII characters are not asserted; trusted: num-bigint +,-,*,divrem, comparison, unsigned bit ops.",
+         "The precedence table is the pinned one (no other documentation exists); numeric value of strings whose first byte is >= 0x80 is not asserted; ascii() of non-ASCII characters follows tests/string_encoding/ok.asm; trusted: num-bigint +,-,*,divrem, comparison, unsigned bit ops.",
          "6/C05"),
  "C01": ("exploration",
          "model-based property testing: generated instruction sets x generated programs vs. an independent reference assembler (structural matcher + layout + expression model), shrinking via proptest choice tape",
@@ -62,8 +62,8 @@ CHECKS = {
          "The precedence between #once and cycle detection for a #once file that includes itself is not fixed by the statement and is excluded (counted); empty ranges, start = size and empty files are run but not asserted.",
          "6/C14"),
  "C15": ("exploration",
-         "model-based property testing of scope trees: every reference is spelled in one of its valid ways from its point of use and resolved by a reference scope model; plus a metamorphic variant that moves address-free constants",
-         "Random search over label/constant trees to depth 4 with repeated local names, forward and backward references at every dot level, constant chains in any order and single injected faults, compared bit-for-bit and symbol-for-symbol with the reference; moved-constant variants must assemble identically. Exploration.",
+         "model-based property testing of scope trees: every reference is spelled in one of its valid ways from its point of use and resolved by a reference scope model; plus two metamorphic variants (address-free constants moved; runs of non-global items wrapped into selected #if arms); thorough tier adds a libFuzzer phase on the same property code",
+         "Random search over label/constant trees to depth 4 with repeated local names, forward and backward references at every dot level, constant chains in any order and single injected faults, compared bit-for-bit and symbol-for-symbol with the reference; moved-constant and if-wrapped variants must assemble identically. Exploration.",
          "Constants open scopes exactly like labels (documented by the repository's tests); only scope-neutral moves are generated.",
          "6/C15"),
  "C16": ("exploration",
@@ -78,8 +78,8 @@ CHECKS = {
          "6/C17"),
  "C19": ("fault_enumeration",
          "directed magnitude families run through the real binary in its own process under CPU / address-space / stack limits, with an outcome oracle (exit 0, or exit 1 with an error diagnostic; any signal, panic exit, CPU-limit or allocation abort is a violation)",
-         "Complete enumeration of 44 directed families x their magnitude lists (nesting 1..10^5, numeric 2^k-1/2^k/2^k+1 for k up to 65, plus 8*10^8, 6.4*10^9, -1, 0) against the real binary built with overflow checks (thorough: also the stock release build). Decides crash / hang / abort versus diagnosis for every listed (family, magnitude); nothing is claimed beyond the listed families.",
-         "RLIMIT_CPU 10 s (30 s thorough), RLIMIT_AS 4 GiB, default 8 MiB stack; magnitudes 2^17..2^30 for bit-by-bit constructs are legitimately slow and not listed; stack overflows of very long operator chains, #if nesting and #elif chains are listed known findings.",
+         "Complete enumeration of 51 directed families (20 nesting/length, 31 numeric) x their magnitude lists (nesting 1..10^5, numeric 2^k-1/2^k/2^k+1 for k up to 65, plus 8*10^8, 6.4*10^9, -1, 0, 4*10^8, 8*10^8-1) against the real binary built with overflow checks (thorough: also the stock release build). Decides crash / hang / abort versus diagnosis for every listed (family, magnitude); nothing is claimed beyond the listed families.",
+         "RLIMIT_CPU 10 s (30 s thorough), RLIMIT_AS 4 GiB, default 8 MiB stack; for the two listed magnitudes inside the supported range (4*10^8, 8*10^8-1) only the time budget is waived (proportional work is not a hang); stack overflows of very long operator chains, #if nesting and #elif chains are listed known findings.",
          "6/C19"),
  "C18": ("exploration",
          "model-based property testing of command lines: the option grammar and format table are parsed from src/usage_help.md at run time; the driver's accept/reject decision, written files and their contents are compared with the model; a sample goes through the real binary",
@@ -103,6 +103,9 @@ CHECKS = {
          "6/C03"),
 }
 
+FUZZED = {"C01","C02","C05","C06","C07","C08","C09","C12","C13","C14","C15","C16","C17","C18"}
+FUZZ_NOTE = "; thorough tier: followed by a coverage-guided libFuzzer phase (cargo-fuzz) driving the same generator and oracle through the choice tape"
+FUZZ_NOTE_RAW = "; thorough tier: followed by a coverage-guided libFuzzer phase (cargo-fuzz) on raw source text + option bytes with the same outcome predicate and fault enumeration"
 NOT_BUILT_REASON = "claimed by the design (DESIGN.md section 6) but its check is not built yet in this commit; nothing is asserted about it"
 
 def main():
@@ -124,7 +127,7 @@ def main():
                 "engine": "casverif",
                 "level_claimed": {"category": cat, "text": text, "design_ref": ref},
                 "level_note": note,
-                "technique": tech,
+                "technique": tech + (FUZZ_NOTE_RAW if i == "C03" else FUZZ_NOTE if i in FUZZED else ""),
             })
         else:
             na.append({"property_id": i, "reason": NOT_BUILT_REASON})
@@ -142,7 +145,7 @@ def main():
             "name": "casverif",
             "path": "/verif/harness",
             "serves_properties": sorted(CHECKS.keys()),
-            "kind_free_text": "Rust harness: proptest-driven choice-tape generators with shrinking, reference models as oracles, process-isolated workers, replay files, known-findings protocol",
+            "kind_free_text": "Rust harness: proptest-driven choice-tape generators with shrinking, reference models as oracles, process-isolated workers, replay files, known-findings protocol; thorough tiers add a libFuzzer phase (/verif/fuzz, cargo +nightly fuzz) over the same property code",
         }],
         "checks": checks,
         "not_applicable": na,
